@@ -42,7 +42,13 @@ type c02Input struct {
 	Ops   []c02Op      `json:"ops"`
 }
 
-var c02Kinds = []string{"stmt", "decl", "spec", "field", "method", "elt", "arg", "case", "import"}
+// qelt / qarg: literal elements and call arguments that are bare qualified identifiers (q.Name), in a
+// file that imports "q", decorated with the goast resolver and printed with import management: the
+// hand-written collapse (decorateSelectorExpr) and expansion (restoreIdent) carry the chunk's
+// comments and spacing
+var c02Kinds = []string{"stmt", "decl", "spec", "field", "method", "elt", "arg", "case", "import", "qelt", "qarg"}
+
+func c02Managed(kind string) bool { return kind == "qelt" || kind == "qarg" }
 
 // the element text (without indentation) and the indentation of the list
 func c02Elem(kind string, c c02Chunk) (string, string) {
@@ -65,6 +71,8 @@ func c02Elem(kind string, c c02Chunk) (string, string) {
 		return c.Name + call + ",", "\t\t"
 	case "arg":
 		return c.Name + call + ",", "\t\t"
+	case "qelt", "qarg":
+		return "q." + strings.ToUpper(c.Name) + ",", "\t\t"
 	case "case":
 		return "case " + c.Name + call + ":\n\t\t" + c.Name + "()", "\t"
 	case "import":
@@ -160,6 +168,10 @@ func c02Source(in c02Input, lists [][]c02Chunk) string {
 		return "package p\n\ntype IA interface {\n" + body(0) + "}\n\ntype IB interface {\n" + body(1) + "}\n"
 	case "elt":
 		return "package p\n\nfunc f() {\n\txA := []int{\n" + body(0) + "\t}\n\txB := []int{\n" + body(1) + "\t}\n}\n"
+	case "qelt":
+		return "package p\n\nimport \"q\"\n\nfunc f() {\n\txA := []int{\n" + body(0) + "\t}\n\txB := []int{\n" + body(1) + "\t}\n}\n"
+	case "qarg":
+		return "package p\n\nimport \"q\"\n\nfunc f() {\n\tgA(\n" + body(0) + "\t)\n\tgB(\n" + body(1) + "\t)\n}\n"
 	case "arg":
 		return "package p\n\nfunc f() {\n\tgA(\n" + body(0) + "\t)\n\tgB(\n" + body(1) + "\t)\n}\n"
 	case "case":
@@ -272,6 +284,14 @@ func c02Locate(kind string, f *dst.File) []c02List {
 		for _, s := range f.Decls[0].(*dst.FuncDecl).Body.List {
 			out = append(out, exprList(&s.(*dst.AssignStmt).Rhs[0].(*dst.CompositeLit).Elts))
 		}
+	case "qelt":
+		for _, s := range f.Decls[1].(*dst.FuncDecl).Body.List {
+			out = append(out, exprList(&s.(*dst.AssignStmt).Rhs[0].(*dst.CompositeLit).Elts))
+		}
+	case "qarg":
+		for _, s := range f.Decls[1].(*dst.FuncDecl).Body.List {
+			out = append(out, exprList(&s.(*dst.ExprStmt).X.(*dst.CallExpr).Args))
+		}
 	case "arg":
 		for _, s := range f.Decls[0].(*dst.FuncDecl).Body.List {
 			out = append(out, exprList(&s.(*dst.ExprStmt).X.(*dst.CallExpr).Args))
@@ -355,7 +375,13 @@ func c02Check(in c02Input) (key, what string) {
 		return "", ""
 	}
 	src := string(fsrc)
-	f, err := decorator.Parse(src)
+	var f *dst.File
+	var err error
+	if c02Managed(in.Kind) {
+		f, err = decorator.NewDecoratorWithImports(token.NewFileSet(), "example.com/self", goastNew()).Parse(src)
+	} else {
+		f, err = decorator.Parse(src)
+	}
 	if err != nil {
 		return "", ""
 	}
@@ -398,7 +424,18 @@ func c02Check(in c02Input) (key, what string) {
 	if err != nil {
 		return "", ""
 	}
-	out, perr, pm := printDst(f)
+	var out string
+	var perr error
+	var pm string
+	if c02Managed(in.Kind) {
+		pm = safely(func() {
+			var buf bytes.Buffer
+			perr = decorator.NewRestorerWithImports("example.com/self", guessNew()).Fprint(&buf, f)
+			out = buf.String()
+		})
+	} else {
+		out, perr, pm = printDst(f)
+	}
 	if pm != "" {
 		return "c02-panic", "printing the edited tree panicked: " + pm
 	}
@@ -408,7 +445,7 @@ func c02Check(in c02Input) (key, what string) {
 	c02Stat[fmt.Sprintf("compared: %d edits applied", applied)]++
 	// the same tree through a restorer with Extras (objects and scopes restored; a deleted element that
 	// an object still points at is restored outside the tree): nothing of it may reach the print
-	if out == string(want) {
+	if out == string(want) && !c02Managed(in.Kind) {
 		var out2 string
 		var err2 error
 		pm2 := safely(func() {
